@@ -73,6 +73,11 @@ PROPS = {
             "the reference, the decision functions agree on every truth assignment, every returned term and every derived constructor constant is "
             "identical over the reals (computer algebra on terms extracted from the MIR). Not decided: that the references have the documented "
             "law (cited), rounding, the ziggurat primitives (C06), the single-draw transforms (C13). Beta (Cheng BB/BC incl. Beta::new) is covered."),
+    "C02": ("rules_c02", "other",
+            "Decided (agreement with the reference algorithm, not the pmf): Zeta (new, sample) and Zipf (new, inv_cdf, sample) — the samplers that take one "
+            "rejection step per iteration without carried state: every comparison is a test of the reference, equal decision functions, identical returned "
+            "terms and derived constants. Not examined: Binomial, Poisson, Geometric, StandardGeometric, Hypergeometric (loop-carried state, nested loops). "
+            "Not decided anywhere: the probability mass function itself."),
     "C10": ("rules_c10", "other",
             "Decided (structural clauses of the descent): the target is random_range(ZERO..root subtotal); in one iteration of the descent, on every "
             "feasible path, each comparison is target' < subtotal(child) with child in {2i+1, 2i+2} and target' = target minus exactly the "
